@@ -137,6 +137,8 @@ def run(rep):
                     why = 'operation %s on an unchecked element raises %s' % (c['ops'][i], o['st'])
                 elif o['uno'] != eids or o['ord'] != eids:
                     why = 'children %s / %s differ from the insertion order %s' % (o['uno'], o['ord'], eids)
+                elif o.get('linked') is False:
+                    why = 'a child does not point at the element as its parent (or is not one level below it)'
                 elif 'txt' in o and o['txt'] != o['names']:
                     why = 'serialised children %s differ from insertion order %s' % (o['txt'], o['names'])
                 elif o['pr']:
